@@ -76,9 +76,12 @@ def avro_accepts(it, t, v):
 
 class AvroWriter:
     def __init__(self, it, fp, schema, codec="null"):
-        note("fastavro", "Writer writes the header at construction, buffers validated records, flush() writes the block; reader yields the flushed blocks' records")
+        note("fastavro", "Writer writes the header at construction (and refuses a file that already has content unless opened 'a+'), buffers validated records, flush() writes the block; reader yields the flushed blocks' records")
         self.it, self.fp, self.schema, self.codec = it, fp, schema, codec
         self.buffer = []
+        if fp.content():
+            # fastavro: a Writer on a file that already has content is an append, which needs the 'a+' mode
+            raise PyRaise(ValueError("When appending to an avro file you must use the 'a+' mode, not just 'a'"))
         fp.write(AvroHeader(schema, codec))
 
     def write(self, rec):
@@ -329,26 +332,108 @@ class SqlCon:
 
 
 def install(it):
+    import datetime as _dtm
+    import gzip
+    import os
+
     it.vfs = {}
+    it.vfs_auto = False
+    it.vfs_events = []
+    it.vfs_dirs = set()
+    it.clock = []  # datetimes handed out by datetime.now() (empty: the real clock)
+
+    note_fs = lambda: note("file system", "open / os.path.exists / os.rename / os.makedirs act on a path -> file map; rename onto an existing path replaces it (POSIX); opening for writing truncates; "
+                           "gzip and the other codecs are transparent wrappers")
+
+    def m_exists(it_, p):
+        note_fs()
+        p = it_.unbase(p)
+        return p in it_.vfs or p in it_.vfs_dirs
+
+    def m_rename(it_, src, dst):
+        note_fs()
+        src, dst = it_.unbase(src), it_.unbase(dst)
+        if src not in it_.vfs:
+            raise PyRaise(FileNotFoundError(2, "No such file or directory", src))
+        if dst in it_.vfs:
+            it_.vfs_events.append(("rename-overwrite", src, dst, list(it_.vfs[dst].content()) if hasattr(it_.vfs[dst], "content") else None))
+        it_.vfs[dst] = it_.vfs.pop(src)
+        it_.vfs_events.append(("rename", src, dst))
+
+    def m_makedirs(it_, p, *a, **k):
+        it_.vfs_dirs.add(it_.unbase(p))
+
+    it.models[os.path.exists] = m_exists
+    it.models[os.rename] = m_rename
+    it.models[os.makedirs] = m_makedirs
+    it.models[os.path.realpath] = lambda it_, p, **k: it_.unbase(p)
+    it.models[gzip.GzipFile] = lambda it_, filename=None, mode="rb", *a, fileobj=None, **k: (fileobj if fileobj is not None else m_open(it_, filename, mode if "b" in mode else mode + "b"))
+
+    def m_now(it_, tz=None):
+        if it_.clock:
+            d = it_.clock.pop(0)
+            return d.astimezone(tz) if tz is not None else d.replace(tzinfo=None)
+        return _dtm.datetime.now(tz)
+
+    it.models[_dtm.datetime.now] = m_now
     it.loader.module_models["fastavro"] = FastavroModel
     it.models[FastavroModel.write.Writer] = lambda it_, fp, schema, codec="null", **kw: AvroWriter(it_, fp, schema, codec)
     it.models[FastavroModel.reader] = lambda it_, fp, *a, **kw: AvroReaderModel(fp)
     it.models[FastavroModel.parse_schema] = lambda it_, schema, *a, **kw: schema
 
     def m_open(it_, path, mode="r", *a, **kw):
+        """builtins.open / io.open / gzip.GzipFile on the virtual file system of the obligation (Interp.vfs: path -> abstract file / database).
+        Opening an existing file for writing truncates it (recorded as an 'overwrite' event); unknown paths are created for writing when
+        Interp.vfs_auto is set; compression wrappers are transparent (assumed contract on the codecs)."""
+        from .files import AbsFile
+
         p = it_.unbase(path)
-        if isinstance(p, str) and p in it_.vfs:
-            return it_.vfs[p]
-        raise Unsupported(f"open({path!r}) outside the virtual file system of the obligation")
+        if hasattr(p, "__fspath__"):
+            p = p.__fspath__()
+        if not isinstance(p, str):
+            raise Unsupported(f"open({path!r}): not a concrete path")
+        if not isinstance(mode, str):
+            raise Unsupported("open with a symbolic mode")
+        writing = any(c in mode for c in "wax")
+        cur = it_.vfs.get(p)
+        if writing:
+            if cur is not None and not isinstance(cur, AbsFile):
+                raise Unsupported("open() of a database path")
+            if cur is not None and getattr(cur, "preset", False):
+                cur.preset = False  # a file object the obligation prepared for this path: handed out once
+                return cur
+            if cur is None and not getattr(it_, "vfs_auto", False):
+                raise Unsupported(f"open({p!r}, {mode!r}) outside the virtual file system of the obligation")
+            if cur is not None and "w" in mode:
+                it_.vfs_events.append(("overwrite", p, list(cur.content())))
+            f = AbsFile(it_, [] if (cur is None or "w" in mode) else cur.content(), name=p, mode=mode)
+            it_.vfs[p] = f
+            return f
+        if cur is None:
+            raise PyRaise(FileNotFoundError(2, "No such file or directory", p))
+        if getattr(cur, "preset", False):
+            cur.preset = False
+            return cur
+        if not isinstance(cur, AbsFile):
+            raise Unsupported("open() of a database path")
+        r = AbsFile(it_, cur.content(), name=p, mode=mode)
+        for extra in ("csv_rows",):
+            if hasattr(cur, extra):
+                setattr(r, extra, getattr(cur, extra))
+        return r
 
     it.models[builtins.open] = m_open
     import io
 
     it.models[io.open] = m_open
+    it.m_open = m_open
 
     def m_connect(it_, path, isolation_level="", **kw):
         p = it_.unbase(path)
         if isinstance(p, str) and p in it_.vfs and isinstance(it_.vfs[p], SqlDb):
+            return SqlCon(it_, it_.vfs[p], isolation_level)
+        if isinstance(p, str) and p not in it_.vfs and getattr(it_, "vfs_auto", False):
+            it_.vfs[p] = SqlDb()
             return SqlCon(it_, it_.vfs[p], isolation_level)
         raise Unsupported(f"sqlite3.connect({path!r}) outside the virtual file system of the obligation")
 
